@@ -599,12 +599,15 @@ CHECKS['C19'].update(text=CHECKS['C19']['text'] + ' W1 evaluates index-form scan
 
 # ---- wave-18 extensions -------------------------------------------------------------------------------------------------------
 CHECKS['C01'].update(text=CHECKS['C01']['text'] + ' T6\'s decision table is evaluated with C integer semantics (arithmetic and integral conversions '
-                     'reduced to the width and signedness of their type, so an unsigned length difference wraps). G1: qtreetbl.c writes no '
+                     'reduced to the width and signedness of their type, so an unsigned length difference wraps). GS1: qtreetbl.c writes no '
                      'file-scope or function-static variable that it also reads - results depend on the table passed in only (the write-only '
                      'rotation counters are accepted and listed).')
 CHECKS['C05'].update(text=CHECKS['C05']['text'] + ' M5: a value buffer is never resized with realloc(p, 0) read as failure (the empty value is a legal '
-                     'value). G1: no read-and-written static state in qhashtbl.c.')
-CHECKS['C13'].update(text=CHECKS['C13']['text'] + ' G1: none of the nine container units reads and writes a file-scope or function-static variable: such '
+                     'value). GS1: no read-and-written static state in qhashtbl.c.')
+CHECKS['C13'].update(text=CHECKS['C13']['text'] + ' GS1: none of the nine container units reads and writes a file-scope or function-static variable: such '
                      'state is shared by all containers and threads and no container lock protects it.')
 CHECKS['C11'].update(text=CHECKS['C11']['text'] + ' M2 follows a local loaded from an owned field (directly or as an arm of ?:): free(local) releases '
                      'that field, so an exit that leaves the node linked with the field dangling is reported.')
+for _p in ('C07', 'C08', 'C09', 'C10'):
+    CHECKS[_p].update(text=CHECKS[_p]['text'] + ' GS1: the unit(s) keep no read-and-written file-scope or function-static state (all state lives in the '
+                      'container object / the user-supplied region).')
